@@ -330,7 +330,9 @@ MNext == \/ /\ nt < MaxReqs
             /\ ~(hist # <<>> /\ hist[Len(hist)].kf)        \* a known-finding step ends the behaviour
             \* (long c06 behaviours are drawn request by request: computing every successor of a state only to
             \* keep one of them would cost a recorded observation per candidate request)
-            /\ ((\E r \in (IF IsC06 /\ Export = "runs" THEN {RandomElement(Requests)} ELSE Requests) : DoWrite(r))
+            \* (likewise c13: otherwise one simulated behaviour is exported once per request of the alphabet
+            \* at its last level, 1 355 behaviours with the same first two requests)
+            /\ ((\E r \in (IF (IsC06 \/ Mode = "c13") /\ Export = "runs" THEN {RandomElement(Requests)} ELSE Requests) : DoWrite(r))
                 \/ (DoRestart /\ (Export = "runs" => RandomElement(1..6) = 1)))
          \/ DoRoutes
 
